@@ -24,6 +24,10 @@ LEVEL_TEXT = ("Lean 4 theorems about the transition-system model: for every numb
               "can neither serve, expire nor be evicted (inductive invariant). Tied to the code by exhaustive sweeps: every connection kind x shape x "
               "every fault at every network operation x cancellation at every suspension point (scope on asyncio+trio, native on asyncio), plus random "
               "multi-caller schedules, each judged on the real pool (requests counted, limbo connections, capacity probe, queued request served).")
+LEVEL_TEXT += (" At the level of the assignment pass, for every kind of connection: after a pass of the current source every pooled connection is idle "
+               "or held by a request still in the queue (no_abandoned_after_pass, over the hand-written pass model tied by C04/C07/C09's lock-step "
+               "runs and the regenerated branch chain of the house-keeping loop) - a connection left behind by a request that has gone is closed by "
+               "the next pass.")
 LEVEL_NOTE = ("Partial: the proved invariant covers pool + direct HTTP/1.1 connections with scope cancellation; HTTP/2, proxy and SOCKS establishment "
               "paths and one-shot native cancellation are covered by the sweeps only (their defects are listed as known findings). The model is tied to "
               "the code at the pool-pass level by lock-step runs and otherwise through the same oracles, not by full trace comparison.")
@@ -37,10 +41,10 @@ def run(ctx, driver):
     sysconf.run_conformance(ctx, rec, 100, 3000)
     sweeprun.run_sweeps(ctx, rec, ID, ["C05:"])
     import concur
-    concur.explore(ctx, rec, ID, {"p_fault": 0.12, "p_cancel": 0.15, "gate_close": False}, 40, 600, ["C05:"])
+    concur.explore(ctx, rec, ID, {"p_fault": 0.12, "p_cancel": 0.15, "gate_close": False}, 100, 1500, ["C05:"])
     concur.explore(ctx, rec, ID, {"p_fault": 0.05, "p_cancel": 0.05, "pool_timeout": 4.0, "gate_close": True, "p_conn_close": 0.4,
                                   "max_connections": 1}, 60, 800, ["C05:"])
-    concur.explore(ctx, rec, ID, {"p_fault": 0.1, "p_cancel": 0.1, "http2": True, "max_connections": 1, "p_conn_close": 0.0}, 20, 300, ["C05:"])
+    concur.explore(ctx, rec, ID, {"p_fault": 0.1, "p_cancel": 0.1, "http2": True, "max_connections": 1, "p_conn_close": 0.0}, 60, 800, ["C05:"])
     return rec.finish("C05 sweeps + explorer", sweeprun.RULE)
 
 
